@@ -29,7 +29,10 @@ EXPLANATION = (
     "each public transition (method returning Result<Protected<A,PM,LM>, io::Error>, with its closures) "
     "is checked for agreement between the wrapper it calls, the mode it stores in the runtime state, the "
     "marker types of the value it constructs, and for the store being dominated by the wrapper's Ok edge. "
-    "Drop order and guard-page offsets are checked as reachability/ordering facts between call sites.")
+    "Drop order and guard-page offsets are checked as reachability/ordering facts between call sites. "
+    "CLONE-COPY/CLONE-LEN: the value returned by every Clone impl of a protected region depends on the contents "
+    "of self (a dependency through its length alone does not count), and a fresh region is resized to self.len() "
+    "before copy_from_slice.")
 NOT_DECIDED = (
     "the kernel's actual page rights, VmLck accounting, faults on access and preservation of contents across "
     "transitions (runtime observations); the Windows branch (not compiled here).")
@@ -215,6 +218,46 @@ def check(ctx, rep, cfg):
     lock_extent(rep, prog, tag)
     drop_discipline(rep, prog, tag)
     record_discipline(rep, prog, tag)
+    clone_contents(rep, prog, tag)
+
+
+def clone_contents(rep, prog, tag):
+    """CLONE-COPY ("the contents are unchanged by ... clone"): the value returned by every `Clone` impl of a
+    protected region depends on the *contents* of `self`, not only on its length (a clone that allocates
+    `self.len()` zero bytes and forgets the copy has the right type state and the wrong bytes)."""
+    from ..inline import inline
+    n = 0
+    for imp in prog.impls:
+        if (imp.get("trait") or "") != "std::clone::Clone" or not imp["self_ty"]["t"].startswith("protected::Protected<"):
+            continue
+        for it in imp["items"]:
+            f0 = prog.by_key.get(it["key"])
+            if it["name"] != "clone" or f0 is None or not f0.blocks:
+                continue
+            f = inline(prog, f0)
+            n += 1
+            sl = cm.content_slice(f, [0])
+            rep.ob("CLONE-COPY", imp["self_ty"]["t"].replace("protected::traits::", "").replace("protected::", "") + tag, 1 in sl,
+                   "the clone %s the contents of `self`" % ("depends on" if 1 in sl else "does NOT depend on"), loc=f0.loc())
+            # CLONE-LEN: a clone assembled by copying into a fresh region gives that region the length of `self`
+            # first (`copy_from_slice` needs equal lengths; a fresh region is empty for the variable-length kind)
+            from ..guards import term_of
+            for c in f.calls():
+                if f.blocks[c.bb]["cleanup"] or not (c.path in cm.COPY or c.rpath in cm.COPY) or len(c.args) != 2:
+                    continue
+                ld, ls = list(operand_locals(c.args[0])), list(operand_locals(c.args[1]))
+                if not ld or not ls or cm.view_info(f, ls[0]) != (1, False):
+                    continue
+                droot, dnar = cm.view_info(f, ld[0])
+                if dnar or droot is None or 1 <= droot <= f.argc:
+                    continue
+                sized = [r for r in f.calls() if r.name == "resize" and len(r.args) >= 2 and operand_locals(r.args[0]) and
+                         cm.view_info(f, list(operand_locals(r.args[0]))[0])[0] == droot and
+                         term_of(f, call_arg_exprs(r)[1], cm.view_info) == ("len", 1) and r.bb in f.dom.get(c.bb, ())]
+                rep.ob("CLONE-LEN", imp["self_ty"]["t"].replace("protected::traits::", "").replace("protected::", "") + tag, bool(sized),
+                       "the fresh region is resized to `self.len()` at %s before the copy" % sized[0].loc() if sized else
+                       "the fresh region is not given the length of `self` before `copy_from_slice` (which needs equal lengths)", loc=c.loc())
+    rep.floor("Clone impls of protected regions" + tag, n, 4)
 
 
 def transitions(rep, prog, ws, tag):
